@@ -1,7 +1,9 @@
 //! e57h — conformance harness binding the TLA+ specification in /verif/spec to cry-inc/e57.
 //! It drives the real code and records what happened; verdicts are TLC's.
+mod conv;
 mod dev;
 mod page;
+mod prog;
 mod util;
 
 fn arg(args: &[String], name: &str) -> Option<String> {
@@ -23,6 +25,7 @@ fn main() {
     let seed = argn(&args, "--seed", 1);
     let r = match args[1].as_str() {
         "page-replay-w" => page::replay_w(&arg(&args, "--edges").expect("--edges"), &out),
+        "e57-run" => prog::run_programs(&arg(&args, "--progs").expect("--progs"), &out),
         "page-replay-r" => page::replay_r(&arg(&args, "--edges").expect("--edges"), &out),
         "page-trace-case-r" => page::trace_case_r(&arg(&args, "--case").expect("--case"), &out),
         "page-trace-history" => page::trace_history(&arg(&args, "--history").expect("--history"), &out),
